@@ -281,6 +281,8 @@ class Source:
             kind, _, pat = sel.strip().partition(" ")
             pat = pat.strip()
             cands = [it for it in scope if it.kind == kind and _sel_match(it, pat)]
+            # items compiled only for tests or only under the verification hook are not the running code
+            cands = [it for it in cands if not re.search(r"cfg\s*\(\s*(test|jsonrpsee_verif)\s*\)", self.text[it.start : it.hdr_start])]
             if len(cands) != 1:
                 raise ScanError(
                     "%s: selector %r matched %d items (%s)"
